@@ -761,7 +761,7 @@ pub fn run_check(e: &Entry, tier: Tier, seed: u64) -> RunOutcome {
             .map(|p| p.join("release").join("rvverif"));
         match rel {
             Some(rel) if rel.exists() => {
-                let s = 1000usize;
+                let s = 9_999_999usize; // never collides with a regular shard index
                 let out = work.join(format!("shard-{s}.json"));
                 let cur = work.join(format!("current-{s}.json"));
                 let child = Command::new(&rel)
